@@ -30,8 +30,8 @@ class NodesDriver:
     """History replay for MC_ConvNodes: single units of one dimension, declarations in any order."""
     SPEC = "conversions:NodesDriver"
 
-    def __init__(self, nodes=3, cands=None, props=("C04", "C07", "C08")):
-        self.kwargs = {"nodes": nodes, "cands": cands, "props": list(props)}
+    def __init__(self, nodes=3, cands=None, props=("C04", "C07", "C08"), latedefs=False):
+        self.kwargs = {"nodes": nodes, "cands": cands, "props": list(props), "latedefs": latedefs}
         self.nodes = nodes
         self.cands = cands
         self.props = set(props)
@@ -42,19 +42,23 @@ class NodesDriver:
         from measured import Length, conversions
         self.conv = conversions
         self.unit = {}
+        self.Length = Length
         for i in range(self.nodes):
             tok = "n%d" % (i + 1)
+            if self.kwargs.get("latedefs") and i == self.nodes - 1:
+                continue    # comes into existence at its "define" event
             self.unit[tok] = Length.unit("vnode" + LETTERS[i], "vn" + LETTERS[i])
 
     def fresh_ctx(self):
-        return {"asked": {}}
+        return {"asked": {}, "late": {}}
 
-    def _u(self, rec):
+    def _u(self, rec, ctx=None):
         m = self.m
         u = m.One
         for tok, e in sorted(rec["f"].items()):
             if e:
-                u = u * self.unit[tok] ** e
+                base = self.unit.get(tok) or (ctx or {}).get("late", {}).get(tok)
+                u = u * base ** e
         if rec["p"]:
             u = m.Prefix(10, rec["p"]) * u
         return u
@@ -64,6 +68,23 @@ class NodesDriver:
         mm = []
         op = ev["op"]
         stats["op:" + op] = stats.get("op:" + op, 0) + 1
+        if op == "define":
+            tok = next(k for k, e in ev["u"]["f"].items() if e)
+            i = int(tok[1:]) - 1
+            ctx["late"][tok] = self.Length.unit("vnode" + LETTERS[i], "vn" + LETTERS[i])
+            ctx["asked"] = {k: v + ["D"] for k, v in ctx["asked"].items()}
+            return mm
+        _u0 = self._u
+        self._u = lambda rec: _u0(rec, ctx)
+        try:
+            return self._apply(ev, ctx, stats)
+        finally:
+            self._u = _u0
+
+    def _apply(self, ev, ctx, stats):
+        m = self.m
+        mm = []
+        op = ev["op"]
         if op == "declare":
             lhs = self._u(ev["u"])     # carries the declaration's left prefix, if any
             rhs = self._u(ev["v"])
@@ -140,9 +161,9 @@ class NodesDriver:
         return {"prop": prop, "key": key, "detail": detail}
 
 
-def tlc_nodes(label, nodes, maxdecl, maxq, cfg="MC_ConvNodes.cfg", timeout=3000):
+def tlc_nodes(label, nodes, maxdecl, maxq, cfg="MC_ConvNodes.cfg", timeout=3000, latedefs=0):
     return run_tlc("MC_ConvNodes", cfg=cfg, wd=workdir("tlc_conv_" + label),
-                   env={"VERIF_NODES": nodes, "VERIF_MAXDECL": maxdecl, "VERIF_MAXQ": maxq},
+                   env={"VERIF_NODES": nodes, "VERIF_MAXDECL": maxdecl, "VERIF_MAXQ": maxq, "VERIF_LATEDEFS": latedefs},
                    workers=4 if nodes == 3 else None, timeout=timeout)
 
 
@@ -168,6 +189,17 @@ def run_c08(tier, seed):
     v.add_violations(rep["mm"])
     v.exhaustive = True
     v.extra["replay"] = {"histories": len(hists), "executed": rep["n"], "ops": {k[3:]: n for k, n in rep["stats"].items() if k.startswith("op:")}}
+    # the same interleavings with one unit DEFINED during the history (definitions, declarations and queries interleaved)
+    late = tlc_nodes("nodes_late", 3, 3, 2, latedefs=1)
+    require_ok(late, "MC_ConvNodes[late definitions]")
+    v.add_tlc(late, "MC_ConvNodes nodes=3 with the third unit defined mid-history")
+    lh = late.exports.get("H", [])
+    repl = replay_histories(lh, NodesDriver(nodes=3, props=("C08",), latedefs=True), split_depth=2, label="nodes_late")
+    v.impl += repl["n"]
+    v.evaluations += repl["n"]
+    v.nontrivial += repl["stats"].get("nontrivial", 0)
+    v.add_violations(repl["mm"])
+    v.extra["replay_late_definitions"] = {"histories": len(lh), "executed": repl["n"]}
     # compound units: F is uninterpreted but single-valued - the outcome of a conversion in a process that
     # has answered many other conversions (warm) must equal the outcome in a fresh fork (cold)
     sh = tlc_shapes("c08pairs", maxe1=2, maxe2=1, prefixed=0 if tier == "quick" else 1)
